@@ -147,6 +147,7 @@ func runC10(sc *C10Scn) (res c10Result) {
 func evalC10(col *vc.Collector, sc *C10Scn, res c10Result) {
 	const prop = "C10"
 	col.Eval(prop, 1)
+	col.Eval("C01", 1)
 	if res.SetupErr != "" {
 		col.Inconclusive(prop, "setup")
 		return
@@ -158,6 +159,7 @@ func evalC10(col *vc.Collector, sc *C10Scn, res c10Result) {
 	}
 	for _, k := range kinds {
 		col.Class(prop, "op-pair:"+k)
+		col.Class("C01", "hub:op-pair:"+k)
 	}
 	var shutdownRet time.Duration = -1
 	for ti, ski := range res.SKIs {
@@ -199,6 +201,20 @@ func evalC10(col *vc.Collector, sc *C10Scn, res c10Result) {
 					col.Violation(prop, "dial-after-shutdown", fmt.Sprintf("outbound TCP connection at %v, %v after Shutdown returned", e.T, e.T-shutdownRet), sc.ID, wit)
 				}
 			case "setup":
+				// C01 at hub level: the remote device is set up although the local side has not granted
+				// trust at that moment (not registered, or unregistered/cancelled since; auto-accept off)
+				col.Count("C01", "hub:setups-observed", 1)
+				if !registered && !autoOn {
+					ut := time.Duration(-1)
+					for _, x := range res.Evs {
+						if x.Seq == unregSeq {
+							ut = x.T
+						}
+					}
+					if ut < 0 || e.T > ut+c10Delta {
+						col.Violation("C01", "hub:setup-without-trust", fmt.Sprintf("SetupRemoteDevice for target %d at %v while the SKI is not registered and auto-accept is off", ti, e.T), sc.ID, wit)
+					}
+				}
 				if autoOn && !registered {
 					// auto-accept pairs whoever connects: from here on the SKI counts as registered
 					// (the hub marks it trusted) until it is unregistered again
